@@ -376,6 +376,25 @@ pub fn rust_verdict(spec: &Spec, outcomes: &[Outcome]) -> Option<String> {
     None
 }
 
+/// Load ONE model and run it twice for the hidden (random) values: do the two runs differ?
+/// `None` when the model does not load or run.
+pub fn varies_between_runs(spec: &Spec, bytes: &[u8], optimize: bool, mode: ShapeInferenceMode) -> Option<bool> {
+    let spec2 = spec.clone();
+    let bytes2 = bytes.to_vec();
+    std::panic::catch_unwind(move || {
+        let model = load(&bytes2, optimize, mode).ok()?;
+        let ids: Option<Vec<_>> = spec2.hidden.iter().map(|o| model.find_node(o)).collect();
+        let ids = ids?;
+        let mut runs = vec![];
+        for _ in 0..2 {
+            let inputs = input_values(&spec2, &model).ok()?;
+            let res = model.run(inputs, &ids, None).ok()?;
+            runs.push(res.iter().map(out_of).collect::<Vec<_>>());
+        }
+        Some(runs[0] != runs[1])
+    }).unwrap_or(None)
+}
+
 pub const CONFIGS: [(bool, u8); 4] = [(false, 0), (true, 0), (true, 1), (true, 2)];
 pub fn mode_of(k: u8) -> ShapeInferenceMode { match k { 0 => ShapeInferenceMode::Off, 1 => ShapeInferenceMode::On, _ => ShapeInferenceMode::Strict } }
 
@@ -395,9 +414,7 @@ pub fn run_all(spec: &Spec) -> RunAll {
     let mut varies = vec![];
     if !spec.hidden.is_empty() {
         for (opt, mode) in CONFIGS {
-            let (a, _) = run_config(spec, &bytes, opt, mode_of(mode), &spec.hidden);
-            let (b, _) = run_config(spec, &bytes, opt, mode_of(mode), &spec.hidden);
-            varies.push(match (&a, &b) { (Outcome::Ok(_), Outcome::Ok(_)) => a != b, _ => true });
+            varies.push(varies_between_runs(spec, &bytes, opt, mode_of(mode)).unwrap_or(true));
         }
     }
     RunAll { outcomes, dumps, infos, varies }
